@@ -554,6 +554,10 @@ def main(ctx):
             if 'error' in x:
                 ctx.fail('oracle', 'TermList -> MPO raised %s for term %s on %s' % (x['error'], term, case['tag']),
                          {'stream': 'mpo', 'sites': case['sites'], 'term': term}, match_key='C12:mpo:raises')
+            elif x.get('g', 1.0) != 1.0:
+                ctx.fail('oracle', 'TermList/MPO construction for term %s on %s wrote into the caller\'s strength array (1.0 became %r): '
+                         'later terms built from the same array get the wrong sign' % (term, case['tag'], x['g']),
+                         {'stream': 'mpo', 'sites': case['sites'], 'term': term}, match_key='C12:mpo:strength-array-mutated')
             elif x['diff'] > TOL:
                 ctx.fail('oracle', 'dense MPO of term %s on %s differs from the product of Jordan-Wigner operators (max diff %.2e)'
                          % (term, case['tag'], x['diff']), {'stream': 'mpo', 'sites': case['sites'], 'term': term}, match_key='C12:mpo:dense')
